@@ -124,6 +124,12 @@ MUTANTS = [
     ('callargs', CALLRS, 'named: &args[num_pos..num_pos + num_named],', 'named: &args[num_pos..num_pos + num_named + 1],', 'CallArgsUnpack'),
     ('callargs', CALLRS, 'pos: &args[..num_pos],', 'pos: &args[..num_named],', 'C08.callargs.split'),
     ('callargs', CALLRS, 'if stage == ArgsStage::Kwargs {', 'if stage == ArgsStage::Args {', 'C08.callargs'),
+    ('spans', PRD, '                let name = self.parse_assign_ident()?;\n                let ty = self.parse_optional_type()?;\n                let r = self.last_end;\n                Ok(Parameter::KwArgs(name, ty).ast(l, r))', '                let name = self.parse_assign_ident()?;\n                let r = self.last_end;\n                let ty = self.parse_optional_type()?;\n                Ok(Parameter::KwArgs(name, ty).ast(l, r))', 'Parameter'),
+    ('spans', PRD, '                    let default = self.parse_test()?;\n                    let r = self.last_end;\n                    Ok(Parameter::Normal(name, ty, Some(Box::new(default))).ast(l, r))', '                    let r = self.last_end;\n                    let default = self.parse_test()?;\n                    Ok(Parameter::Normal(name, ty, Some(Box::new(default))).ast(l, r))', 'parse_def_param'),
+    ('spans', PRD, '            let l = expr.span.begin().get() as usize;\n            self.advance();\n            let cond = self.parse_or_test()?;', '            self.advance();\n            let l = self.pos();\n            let cond = self.parse_or_test()?;', 'continue_ternary'),
+    ('spans', PRD, '        let body = self.parse_test()?;\n        let r = self.last_end;\n        Ok(Expr::Lambda(LambdaP {', '        let r = self.last_end;\n        let body = self.parse_test()?;\n        Ok(Expr::Lambda(LambdaP {', 'parse_lambda'),
+    ('spans', PRD, '                let r = else_clause.span.end().get() as usize;\n', '                let r = r;\n', 'if_body'),
+    ('spans', PRD, '        let body = self.parse_suite()?;\n        let r = self.last_end;\n        let var = grammar_util::check_assign', '        let r = self.last_end;\n        let body = self.parse_suite()?;\n        let var = grammar_util::check_assign', 'for_stmt'),
     ('calls', INSTR, '        eval.with_call_stack(self.to_value(), Some(location), |eval| {\n            self.invoke(args, eval)\n        })', '        self.invoke(args, eval)', 'bc_invoke'),
     ('calls', 'starlark/src/values/layout/value.rs', '        eval.with_call_stack(self, location, |eval| {\n            self.get_ref_full().invoke(args, eval)\n        })', '        self.get_ref_full().invoke(args, eval)', 'invoke_with_loc'),
     ('strindex', STRT, 'let ind = CharIndex(i.unsigned_abs() as usize);', 'let ind = CharIndex((-i) as usize);', 'at'),
